@@ -600,6 +600,120 @@ static Align measure_align(int p, int q, int n) {
     return a;
 }
 
+// ------------------------------------------------------------------------------------------------ one very long frame
+// ONE process() call with N >= 70000 / 140000 input samples (index arithmetic beyond 2^16 / 2^17): (i) every output sample is
+// compared with the reference chain y[i] = w[i*M+t] evaluated directly in long double (t: the integer phases that reproduce the
+// first 256 outputs; one of them must reproduce the whole frame), (ii) the same stream fed in frames of 4096*M must give the
+// same samples (to the chain tolerance; bit identity is recorded as a note only).
+static void long_case(Ctx& ctx, Kind kind, int L, int M, const std::string& hk, int nh, int N0) {
+    const char* site = kind == INTERP ? "FIRInterpolator::process"
+                       : kind == DECIM ? "FIRDecimator::process"
+                       : kind == RATE  ? "FIRRateConverter::process"
+                                       : "FIRResampler::process";
+    std::vector<double> h;
+    arr_real ha;
+    const arr_real* hp = nullptr;
+    if (hk == "default") {
+        arr_real d = dsplib::design_multirate_fir(L, M);
+        h.assign(d.begin(), d.end());
+    } else {
+        h = sym_dense(nh);
+        ha = to_arr(h);
+        hp = &ha;
+    }
+    Chain c;
+    c.set(h, L, M);
+    const long N = ((long)(N0 + M - 1) / M) * M;
+    std::vector<double> x((size_t)N);
+    for (long n = 0; n < N; ++n) x[(size_t)n] = lcg_val(841, (uint64_t)n);
+    RunOut one = run(kind, L, M, 1, hp, x, 0);
+    const P det0 = P().kv("frame", N);
+    if (!one.err.empty()) {
+        ctx.fail(site, one.err, fmt("%ld samples, no exception", N * L / M), P(det0).kv("what", one.threw ? "throw" : "size"));
+        return;
+    }
+    const long nout = N * L / M;
+    const long nhl = (long)h.size();
+    auto ref = [&](long u) -> ld {   // w[u] = sum_k g[k] * xup[u-k], xup[n*L] = x[n]
+        if (u < 0) return 0;
+        long nhi = std::min(N - 1, u / L);
+        long nlo = (u - nhl + 1 + L - 1) / L;   // ceil((u-nhl+1)/L) for positive numerators
+        if (u - nhl + 1 <= 0) nlo = 0;
+        ld sacc = 0;
+        for (long n = nlo; n <= nhi; ++n) sacc += (ld)x[(size_t)n] * c.g[(size_t)(u - n * L)];
+        return sacc;
+    };
+    // candidate phases from the head of the frame
+    const long R = nhl + L + M, head = std::min<long>(nout, 256);
+    ld hmax = 0;
+    for (long u = 0; u < head * M + R; ++u) hmax = std::max(hmax, fabsl(ref(u)));
+    std::vector<long> T;
+    for (long t = -R; t <= R; ++t) {
+        bool okk = true;
+        for (long i = 0; i < head && okk; ++i) okk = fabsl((ld)one.y[(size_t)i] - ref(i * M + t)) <= 1e-12L * hmax;
+        if (okk) T.push_back(t);
+    }
+    if (T.empty()) {
+        ctx.fail(site, "no fixed phase reproduces the first 256 outputs of the long frame", "y[i] = w[i*M+t]", P(det0).kv("what", "head"));
+        return;
+    }
+    // (i) the whole frame
+    bool any = false;
+    long bad_i = -1;
+    double bad_e = 0, tol = 0, worst = 0;
+    for (long t : T) {
+        std::vector<ld> r((size_t)nout);
+        ld ymax = 0;
+        for (long i = 0; i < nout; ++i) {
+            r[(size_t)i] = ref(i * M + t);
+            ymax = std::max(ymax, fabsl(r[(size_t)i]));
+        }
+        tol = 1e-12 * (double)ymax;
+        long bi = -1;
+        double be = 0, me = 0;
+        for (long i = 0; i < nout; ++i) {
+            const double e = (double)fabsl((ld)one.y[(size_t)i] - r[(size_t)i]);
+            me = std::max(me, e);
+            if (e > tol && bi < 0) bi = i, be = e;
+        }
+        if (bi < 0) {
+            any = true;
+            worst = tol > 0 ? me / tol : 0;
+            break;
+        }
+        if (bad_i < 0) bad_i = bi, bad_e = be;
+    }
+    if (!any) {
+        ctx.fail(site,
+                 fmt("one frame of %ld samples: y[%ld] differs from the chain by %.3g (input index ~%ld); phase t=%ld reproduces the first 256 outputs",
+                     N, bad_i, bad_e, bad_i * M / L, T[0]),
+                 fmt("<= %.3g for every output of the frame", tol), P(det0).kv("i", bad_i).kv("in_index", bad_i * M / L).kv("what", "value"));
+    } else {
+        ctx.worst("long frame max|y-ref| / (1e-12 max|y|)", worst);
+    }
+    // (ii) the same stream in frames of 4096*M
+    RunOut fr = run(kind, L, M, 1, hp, x, 4096 * M);
+    if (!fr.err.empty() || (long)fr.y.size() != nout) {
+        ctx.fail(site, fr.err.empty() ? fmt("%zu samples", fr.y.size()) : fr.err, fmt("%ld samples, no exception", nout),
+                 P(det0).kv("what", "framed"));
+        return;
+    }
+    ld ymax = 0;
+    for (double v : fr.y) ymax = std::max(ymax, (ld)std::fabs(v));
+    long di = -1, nbit = 0;
+    for (long i = 0; i < nout; ++i) {
+        if (!biteq(one.y[(size_t)i], fr.y[(size_t)i])) ++nbit;
+        if (di < 0 && !(std::fabs(one.y[(size_t)i] - fr.y[(size_t)i]) <= 1e-12 * (double)ymax)) di = i;
+    }
+    if (di >= 0)
+        ctx.fail(site,
+                 fmt("one frame of %ld samples gives y[%ld]=%.17g, the same stream in frames of %d samples gives %.17g", N, di, one.y[(size_t)di],
+                     4096 * M, fr.y[(size_t)di]),
+                 "the same samples for both framings", P(det0).kv("i", di).kv("in_index", di * M / L).kv("what", "framing"));
+    ctx.note(nbit == 0 ? "long frame: bit-identical to 4096*M framing" : "long frame: equal to 4096*M framing within tolerance only");
+    ctx.nontrivial();
+}
+
 // ------------------------------------------------------------------------------------------------ band limitation of the default designs
 // "approximating the band-limited signal": with the default designs a tone well inside the new band (0.4 of the smaller Nyquist
 // rate) must come through with unit gain and nothing else, a tone half-way between the new and the old Nyquist rate must be
@@ -744,6 +858,27 @@ int main(int argc, char** argv) {
             getters_case(ctx, cf.k, cf.L, cf.M, cf.mul);
     }
 
+    // ---- one very long frame (input indices beyond 2^16 and 2^17)
+    {
+        struct LC {
+            Kind k;
+            int L, M;
+            bool quick;
+        };
+        const LC lcs[] = {{RATE, 3, 2, true},      {RATE, 2, 3, true},       {RATE, 5, 7, false},     {RATE, 3, 4, false},
+                          {INTERP, 3, 1, true},    {DECIM, 1, 3, true},      {RESAMPLER, 3, 2, true}, {RESAMPLER, 2, 3, false},
+                          {RESAMPLER, 3, 1, false}, {RESAMPLER, 1, 3, false}, {RATE, 7, 5, false},     {RATE, 16, 15, false}};
+        for (auto& lc : lcs)
+            for (int N0 : {70000, 140000})
+                for (int hv = 0; hv < 2; ++hv) {
+                    if (!T && (!lc.quick || N0 != 70000 || hv != 0)) continue;
+                    const int mx = std::max(lc.L, lc.M), nh = 2 * mx + 3;
+                    if (!ctx.take("chain.long", P().kv("kind", KNAME[lc.k]).kv("L", lc.L).kv("M", lc.M).kv("h", hv ? "dense" : "default").kv("nh", hv ? nh : 0).kv("frame", N0)))
+                        continue;
+                    long_case(ctx, lc.k, lc.L, lc.M, hv ? "dense" : "default", nh, N0);
+                }
+    }
+
     // ---- a rejected frame must not change the state (decimating classes and modes; M = 1 has no rejectable length)
     for (auto& cf : confs) {
         if (cf.k == INTERP || cf.M == 1) continue;
@@ -788,7 +923,7 @@ int main(int argc, char** argv) {
         const int ratios[][2] = {{2, 3}, {2, 5}, {3, 7}, {3, 8}, {5, 16}, {160, 441}, {147, 320}, {1, 2}, {1, 3}, {1, 8}};
         const char* dn[] = {"resample(x,p,q)", "resample(x,p,q,12,9.0)", "FIRResampler(L,M)", "FIRRateConverter(L,M)/FIRDecimator(M)"};
         // stop-band bound per design: 10 x the largest leakage measured on the unchanged tree (see propdef)
-        const double stop_bound[] = {1e9, 1e9, 1e9, 1e9};
+        const double stop_bound[] = {8.5e-3, 9.2e-2, 9.1e-2, 9.1e-2};
         for (auto& r : ratios)
             for (int d = 0; d < 4; ++d) {
                 if (!ctx.take("resample.band", P().kv("L", r[0]).kv("M", r[1]).kv("design", d))) continue;
